@@ -25,9 +25,18 @@ type apiH struct {
 	retained *chans.PubSub[int] // a WithOnly publisher kept across later calls
 	retFor   int
 	expect   [][]int
+	// a second, unrelated PubSub with one subscription: what happens on one must not show on the other
+	other       *chans.PubSub[int]
+	otherCh     <-chan int
+	otherLive   bool
+	otherExpect []int
 }
 
-func newAPI(h int) *apiH { return &apiH{H: h, ps: &chans.PubSub[int]{}, retFor: -1} }
+func newAPI(h int) *apiH {
+	x := &apiH{H: h, ps: &chans.PubSub[int]{}, retFor: -1, other: &chans.PubSub[int]{}, otherLive: true}
+	x.otherCh = x.other.SubBuf(4)
+	return x
+}
 
 func (x *apiH) Ops() []seqmc.Op {
 	var ops []seqmc.Op
@@ -41,6 +50,10 @@ func (x *apiH) Ops() []seqmc.Op {
 	}
 	if x.retained != nil {
 		ops = append(ops, seqmc.Op{Name: "retained.PubSync"})
+	}
+	ops = append(ops, seqmc.Op{Name: "other.PubSync"})
+	if x.otherLive {
+		ops = append(ops, seqmc.Op{Name: "other.UnsubAll"})
 	}
 	return ops
 }
@@ -124,6 +137,14 @@ func (x *apiH) Apply(op seqmc.Op) *seqmc.Fail {
 	case "WithOnly.PubSliceSync":
 		x.ps.WithOnly(x.handles[op.A]).PubSliceSync([]int{7, 8})
 		x.deliver(op.A, 7, 8)
+	case "other.PubSync":
+		x.other.PubSync(11)
+		if x.otherLive {
+			x.otherExpect = append(x.otherExpect, 11)
+		}
+	case "other.UnsubAll":
+		x.other.UnsubAll()
+		x.otherLive = false
 	case "Retain WithOnly":
 		x.retained, x.retFor = x.ps.WithOnly(x.handles[op.A]), op.A
 		if !x.live[op.A] {
@@ -153,6 +174,27 @@ func (x *apiH) Apply(op seqmc.Op) *seqmc.Fail {
 
 // drain empties every handle's channel and compares with what the model expects.
 func (x *apiH) drain(what string) *seqmc.Fail {
+	{
+		var got []int
+		closed := false
+		for done := false; !done; {
+			select {
+			case v, ok := <-x.otherCh:
+				if !ok {
+					closed, done = true, true
+				} else {
+					got = append(got, v)
+				}
+			default:
+				done = true
+			}
+		}
+		want := x.otherExpect
+		x.otherExpect = nil
+		if fmt.Sprint(got) != fmt.Sprint(want) || closed != !x.otherLive {
+			return seqmc.Failf("instance-isolation", "after %s: the subscriber of a second, unrelated PubSub received %v (closed=%v), want %v (closed=%v)", what, got, closed, want, !x.otherLive)
+		}
+	}
 	for i, ch := range x.handles {
 		var got []int
 		closed := false
@@ -183,12 +225,14 @@ func (x *apiH) drain(what string) *seqmc.Fail {
 func (x *apiH) Key() string {
 	// the handles first: their channels are numbered in handle order before the PubSub is walked
 	return fp.Of(&struct {
-		Handles  []<-chan int
-		Live     []bool
-		PS       *chans.PubSub[int]
-		Retained *chans.PubSub[int]
-		RetFor   int
-	}{x.handles, x.live, x.ps, x.retained, x.retFor})
+		Handles   []<-chan int
+		Live      []bool
+		PS        *chans.PubSub[int]
+		Retained  *chans.PubSub[int]
+		RetFor    int
+		Other     *chans.PubSub[int]
+		OtherLive bool
+	}{x.handles, x.live, x.ps, x.retained, x.retFor, x.other, x.otherLive})
 }
 
 func (x *apiH) Observe() *seqmc.Fail { return nil }
